@@ -16,6 +16,7 @@ import immutables
 
 import vlib.shims  # noqa: F401
 from vlib import cov, REPO
+from vlib.concrete import untraced, concrete_index, concrete_bool
 
 from edb.server.compiler_pool import pool as P
 from edb.server.compiler_pool import state as S
@@ -330,6 +331,23 @@ def history(pre_b: bool, w1: int, d1: int, p1: int, k1: int, q1: int, j1: int, f
     1 for database b) + request 1 (up to two parts changed, any fault) +
     request 2 (one part changed or reverted, any fault) + a fault-free probe
     request on any worker / database."""
+    # every parameter is a choice: make it concrete (forks), then run natively
+    pre_b = concrete_bool(pre_b)
+    w1, d1, w2, d2, w3, d3 = (concrete_index(x, 2) for x in (w1, d1, w2, d2, w3, d3))
+    p1, q1, p2 = (concrete_index(x, 6) for x in (p1, q1, p2))
+    k1 = concrete_index(k1, 4) if p1 < 5 else 1
+    j1 = concrete_index(j1, 4) if q1 < 5 else 1
+    k2 = concrete_index(k2, 4) if p2 < 5 else 1
+    f1, f2 = concrete_index(f1, 5), concrete_index(f2, 5)
+    g1 = concrete_index(g1, 5) if f1 == F_SYNC else 0
+    g2 = concrete_index(g2, 5) if f2 == F_SYNC else 0
+    if min(w1, d1, w2, d2, w3, d3, p1, q1, p2, k1, j1, k2, f1, f2, g1, g2) < 0:
+        return True              # outside the stated bound
+    with untraced():
+        return _history(pre_b, w1, d1, p1, k1, q1, j1, f1, g1, w2, d2, p2, k2, f2, g2, w3, d3)
+
+
+def _history(pre_b, w1, d1, p1, k1, q1, j1, f1, g1, w2, d2, p2, k2, f2, g2, w3, d3) -> bool:
     pool = Pool()
     truth = Truth()
     if not request(pool, truth, 0, 0, F_NONE, 0):
